@@ -348,6 +348,18 @@ def PTerm.toT : PTerm → TTerm
 def blocksToTpl (bs : List Block) : List QTpl :=
   bs.flatMap (fun b => b.2.map (fun t => ((t.1.toT, t.2.1.toT, t.2.2.toT), b.1)))
 
+/-- `translateQuads` / the group of a WHERE clause, as the driver feeds them: the quad patterns in the order
+    written; consecutive ones with the same graph term form one block (the triples outside GRAPH, or one
+    `GRAPH x { … }`).  A graph term written in several GRAPH blocks yields several blocks for it: they are
+    all kept (rdflib collects them with `allquads[q.term] += …`). Templates and quad data reach the model
+    as the flat list of quads and are not grouped at all. -/
+def groupBlocks : List (TPat × GTerm) → List Block
+  | [] => []
+  | (t, g) :: rest =>
+    match groupBlocks rest with
+    | (g', ts) :: bs => if g = g' then (g, t :: ts) :: bs else (g, [t]) :: (g', ts) :: bs
+    | [] => [(g, [t])]
+
 /-- `evalDeleteWhere`: the quad pattern is both WHERE clause and DELETE template -/
 def evalDeleteWhere (c : Cfg) (bs : List Block) (s : St) : St :=
   let sols := evalWhere (storeDataset c s none) bs none
